@@ -72,6 +72,15 @@ def _index(r):
                        (r.between(0, 20), 6), (r.between(0, (1 << 31) - 1), 3)])
 
 
+SHAPED_SEEDS = {
+    "master_k": ["0c69855de9d4dee7236192d912edb234", "34e01636560fc86bee65af2b5abdec94", "0baee68ea52a774ad2d8259daf68413e"],
+    "child0H_k": ["4d206614297633b2da9534ffaed059e4", "11042a15b3369ceddf6e4c83a0cffa1c", "6ea92adc01f3d4e648ddc78fc85e265d"],
+    "child0_k": ["d86deefbbd065c9b14c659ba47243a3c", "3c96dc5b59df90be5c0285a4ab050802", "dde6bba9db0abcf2c2db88cf34c72add"],
+    "master_x": ["47d8992853e9dc1edae4ce1355def739", "d50e4877a7d49681ae7b31ffc2ef6985", "3a4dcfccb9c238cfcf51a2e22ae4484d"],
+    "child0_x": ["fb7d67fd3ebecf4a2465b20715c03f3c", "7174c250df061879877cd6d27865f26c", "47e68a76662500d1ad000627a3b71b7b"],
+}
+
+
 def _path(r, maxlen, allow_hard):
     n = r.between(0 if r.chance(0.1) else 1, maxlen)
     return [[_index(r), bool(allow_hard and r.chance(0.35))] for _ in range(n)]
@@ -83,6 +92,12 @@ def gen_plan(rng, tier, index, config=None):
     net = config or rng.weighted([("BTC", 40), ("XTN", 10), (rng.pick(nets), 50)])
     r = rng.fork("ops")
     seed = r.bytes(r.pick([16, 32, 64, 1, 5]))
+    shaped = None
+    if r.chance(0.12):
+        # seeds found once with the model: the master key, its child 0H / 0, or their public x start with a zero byte
+        # (1 in 256 under random seeds; BIP32 test vector 3 is about exactly this)
+        shaped = r.pick(sorted(SHAPED_SEEDS))
+        seed = bytes.fromhex(r.pick(SHAPED_SEEDS[shaped]))
     steps = [{"op": "root", "id": "n0", "seed": seed.hex()}]
     nodes = {"n0": True}   # id -> is_private (planner-side knowledge)
     nid = [1]
@@ -97,6 +112,16 @@ def gen_plan(rng, tier, index, config=None):
         return s
 
     recent = []
+    if shaped is not None:
+        # go through the node with the short key at once: hardened and normal children of it, by path and by subkey()
+        first = {"master_k": [r.pick([0, 1, 0x7FFFFFFF]), r.chance(0.6)], "master_x": [r.pick([0, 1]), False],
+                 "child0H_k": [0, True], "child0_k": [0, False], "child0_x": [0, False]}[shaped]
+        path = [first] + ([[r.pick([0, 1, 2]), r.chance(0.5)]] if r.chance(0.7) else [])
+        steps.append({"op": "derive", "src": "n0", "dst": new_id(), "path": path, "spell": spell, "via": "path", "pub_suffix": False})
+        nodes[steps[-1]["dst"]] = True
+        st_ = {"op": "export", "src": steps[-1]["dst"], "dst": new_id(), "as_private": True, "parser": "variant"}
+        nodes[st_["dst"]] = True
+        steps.append(st_)
     while len(steps) < nsteps:
         op = r.weighted([("derive", 10), ("rederive", 4), ("public_copy", 2), ("export", 4), ("children", 1),
                          ("subkeys", 2), ("fresh", 2), ("hfp", 2), ("kc", 14 if have_kc else 4), ("electrum", 1)])
